@@ -1048,6 +1048,35 @@ theorem leaf_parent {st : St} {t : PT} {x : Nat} (hH : Holds st t) (hx : x ∈ t
     simp [PT.addrs]
   · left; rw [e]; simp
 
+theorem fixAfterDelete_keeps_leaf (cmpF : Int → Int → Int)
+    (hK : ∀ fuel fn, isK fn = true → SpecK (call cmpF procs fuel) fn) :
+    ∀ fuel x st v st' t, Holds st t → x ∈ t.addrs → (st.h x).left = none → (st.h x).right = none →
+      (st.h x).parent ≠ none →
+      call cmpF procs fuel .fixAfterDelete [.ptr (some x)] st = .ok (v, st') →
+      (st'.h x).left = none ∧ (st'.h x).right = none := by
+  intro fuel x st v st' t hH hx hl hr _ h
+  obtain ⟨s, hs⟩ := sub_some_of_mem hx
+  obtain ⟨⟨A, R, rfl⟩, _⟩ := sub_spec hs
+  cases fuel with
+  | zero => simp [call] at h
+  | succ f =>
+    have h' : runBody cmpF (call cmpF procs f) f ⟨1, body_fixAfterDelete⟩ [.ptr (some x)] st
+        = .ok (v, st') := h
+    simp only [runBody] at h'
+    have hQ : Q3 x (Env.ofArgs [.ptr (some x)]) st :=
+      ⟨x, by simp [Env.ofArgs], t, _, _, hH, hx, repr_sub hH.1 hs, by simp [PT.addrs], hl, hr⟩
+    cases he : exec cmpF (call cmpF procs f) f (Env.ofArgs [.ptr (some x)]) st body_fixAfterDelete with
+    | error e => simp [he] at h'
+    | ok r =>
+      obtain ⟨fl, ρ', st1⟩ := r
+      have hL : Leaf st1 x := body_spec cmpF hK _ _ _ _ _ hQ he
+      rw [he] at h'
+      cases fl with
+      | normal => simp at h'; rw [← h'.2]; exact hL
+      | ret w => simp at h'; rw [← h'.2]; exact hL
+      | cont => simp at h'
+      | brk => simp at h'
+
 theorem fixAfterDelete_keeps_parent (cmpF : Int → Int → Int)
     (hK : ∀ fuel fn, isK fn = true → SpecK (call cmpF procs fuel) fn) :
     ∀ fuel x st v st' t, Holds st t → x ∈ t.addrs → (st.h x).left = none → (st.h x).right = none →
@@ -1064,26 +1093,7 @@ theorem fixAfterDelete_keeps_parent (cmpF : Int → Int → Int)
   obtain ⟨t', hH', hP, _⟩ := hK fuel .fixAfterDelete rfl _ _ _ _ t hH (by
     intro y hy; simp at hy; subst hy; exact hx) h
   -- `x` is still a leaf
-  have hleaf : Leaf st' x := by
-    cases fuel with
-    | zero => simp [call] at h
-    | succ f =>
-      have h' : runBody cmpF (call cmpF procs f) f ⟨1, body_fixAfterDelete⟩ [.ptr (some x)] st
-          = .ok (v, st') := h
-      simp only [runBody] at h'
-      have hQ : Q3 x (Env.ofArgs [.ptr (some x)]) st :=
-        ⟨x, by simp [Env.ofArgs], t, _, _, hH, hx, repr_sub hH.1 hs, by simp [PT.addrs], hl, hr⟩
-      cases he : exec cmpF (call cmpF procs f) f (Env.ofArgs [.ptr (some x)]) st body_fixAfterDelete with
-      | error e => simp [he] at h'
-      | ok r =>
-        obtain ⟨fl, ρ', st1⟩ := r
-        have hL := body_spec cmpF hK _ _ _ _ _ hQ he
-        rw [he] at h'
-        cases fl with
-        | normal => simp at h'; rw [← h'.2]; exact hL
-        | ret w => simp at h'; rw [← h'.2]; exact hL
-        | cont => simp at h'
-        | brk => simp at h'
+  have hleaf : Leaf st' x := fixAfterDelete_keeps_leaf cmpF hK fuel x st v st' t hH hx hl hr hp h
   have hx' : x ∈ t'.addrs := by rw [hP.addrs]; exact hx
   rcases leaf_parent hH' hx' hleaf with h1 | h1
   · exact h1
